@@ -1,0 +1,90 @@
+//go:build verif
+
+// Contracts for the deductive verifier in /verif (govc). This file contains
+// comments only and is compiled only under the "verif" build tag.
+
+package chans
+
+/*@
+// ---------------------------------------------------------------- C19: channel helpers
+// Channel model (see /verif/DESIGN.md): a channel is a ghost FIFO history; chhead/chtail count the values taken
+// and handed over so far, chat(ch, p) is the value handed over at position p, the queue is [chhead, chtail).
+//
+// The timed helpers run under arbitrary interference (mode atomic): before each of their channel operations
+// every channel's state is arbitrary (peers send, receive and close; the timer fires or not; the context is
+// cancelled or not), and every completed send/receive is an action in the call's action log. The contracts are
+// conservation laws over that log: the boolean result is true exactly when THE value was handed to the channel
+// (exactly one send action on ch, of `value`) resp. a value was taken from it (exactly one successful receive,
+// whose value is returned); otherwise nothing was sent resp. consumed and the zero value is returned.
+// A send on a channel that a peer closed panics (Go semantics; nothing was handed over then).
+
+func SendTimeout
+  property C19
+  mode atomic
+  opt sendclosed panic
+  on_panic[nothing-sent] nacts(K_ChanSend, ch) == 0
+  exit_ensures[iff]      result == (nacts(K_ChanSend, ch) == 1)
+  exit_ensures[once]     nacts(K_ChanSend, ch) <= 1 && nacts(K_ChanSend) == nacts(K_ChanSend, ch)
+  exit_ensures[value]    nacts(K_ChanSend, ch) == 1 ==> actval(K_ChanSend, ch) == value
+  exit_ensures[untouched] nacts(K_ChanRecv, ch) == 0 && nacts(K_ChanRecvClosed, ch) == 0 && nacts(K_ChanClose) == 0
+  exit_ensures[nolimit]  timeout <= 0 ==> result && nacts(K_TimerNew) == 0
+
+func SendContext
+  property C19
+  mode atomic
+  opt sendclosed panic
+  requires ctx != nil && ref(ctxdone(ctx)) != ref(ch)
+  on_panic[nothing-sent] nacts(K_ChanSend, ch) == 0
+  exit_ensures[iff]      result == (nacts(K_ChanSend, ch) == 1)
+  exit_ensures[once]     nacts(K_ChanSend, ch) <= 1 && nacts(K_ChanSend) == nacts(K_ChanSend, ch)
+  exit_ensures[value]    nacts(K_ChanSend, ch) == 1 ==> actval(K_ChanSend, ch) == value
+  exit_ensures[untouched] nacts(K_ChanRecv, ch) == 0 && nacts(K_ChanRecvClosed, ch) == 0 && nacts(K_ChanClose) == 0
+
+func RecvTimeout
+  property C19
+  mode atomic
+  exit_ensures[iff]      result1 == (nacts(K_ChanRecv, ch) == 1)
+  exit_ensures[once]     nacts(K_ChanRecv, ch) <= 1
+  exit_ensures[value]    result1 ==> result0 == actval(K_ChanRecv, ch)
+  exit_ensures[zero]     !result1 ==> result0 == zero(V)
+  exit_ensures[untouched] nacts(K_ChanSend) == 0 && nacts(K_ChanClose) == 0
+  exit_ensures[nolimit]  timeout <= 0 ==> nacts(K_TimerNew) == 0 && (result1 || nacts(K_ChanRecvClosed, ch) == 1)
+
+func RecvContext
+  property C19
+  mode atomic
+  requires ctx != nil && ref(ctxdone(ctx)) != ref(ch)
+  exit_ensures[iff]      result1 == (nacts(K_ChanRecv, ch) == 1)
+  exit_ensures[once]     nacts(K_ChanRecv, ch) <= 1
+  exit_ensures[value]    result1 ==> result0 == actval(K_ChanRecv, ch)
+  exit_ensures[zero]     !result1 ==> result0 == zero(V)
+  exit_ensures[untouched] nacts(K_ChanSend) == 0 && nacts(K_ChanClose) == 0
+
+// The queued receivers: sequential contract (no peer touches the channel during the call): they never block
+// (every channel operation is a non-blocking select), return exactly the first min(limit, queued) queued values
+// in FIFO order, leave the rest queued, and a closed and drained channel adds nothing.
+func RecvQueued
+  property C19
+  requires !envchan(ch)
+  ensures[count]  len(result) == min(max(maxValues, 0), old(chlen(ch)))
+  ensures[fifo]   forall i :: 0 <= i && i < len(result) ==> result[i] == old(chat(ch, chhead(ch) + i))
+  ensures[rest]   chhead(ch) == old(chhead(ch)) + len(result) && chtail(ch) == old(chtail(ch)) && chclosed(ch) == old(chclosed(ch))
+  ensures[fresh]  len(result) > 0 ==> fresh(result)
+  assigns chan(ch)
+  loop 0 invariant len(buffer) <= max(maxValues, 0) && len(buffer) <= old(chlen(ch)) && (cap(buffer) == 0 || fresh(buffer))
+  loop 0 invariant chhead(ch) == old(chhead(ch)) + len(buffer) && chtail(ch) == old(chtail(ch)) && chclosed(ch) == old(chclosed(ch))
+  loop 0 invariant forall i :: 0 <= i && i < len(buffer) ==> buffer[i] == old(chat(ch, chhead(ch) + i))
+
+func RecvQueuedFull
+  property C19
+  requires !envchan(ch)
+  ensures[count]  result == min(len(buf), old(chlen(ch)))
+  ensures[fifo]   forall i :: 0 <= i && i < result ==> buf[i] == old(chat(ch, chhead(ch) + i))
+  ensures[rest]   chhead(ch) == old(chhead(ch)) + result && chtail(ch) == old(chtail(ch)) && chclosed(ch) == old(chclosed(ch))
+  ensures[tail]   forall i :: result <= i && i < len(buf) ==> buf[i] == old(buf[i])
+  assigns chan(ch), elems(buf)
+  loop 0 invariant 0 <= index && index <= len(buf) && index <= old(chlen(ch))
+  loop 0 invariant chhead(ch) == old(chhead(ch)) + index && chtail(ch) == old(chtail(ch)) && chclosed(ch) == old(chclosed(ch))
+  loop 0 invariant forall i :: 0 <= i && i < index ==> buf[i] == old(chat(ch, chhead(ch) + i))
+  loop 0 invariant forall i :: index <= i && i < len(buf) ==> buf[i] == old(buf[i])
+@*/
